@@ -51,17 +51,25 @@ theorem lockset_orders {tbl : List Access} {tr : List Ev} (hrf : raceFree tbl = 
   have hmk' : h.m = k.m ∧ (h.mode = .excl ∨ k.mode = .excl) := by simpa using hmk
   have hm : h.m = k.m := hmk'.1
   have hx : h.mode = .excl ∨ k.mode = .excl := hmk'.2
-  obtain ⟨si, hsi, hhi⟩ := hal h hh
-  obtain ⟨sj, hsj, hhj⟩ := hbl k hk
+  -- the actual holds: the recorded mode, or exclusive where shared was recorded
+  obtain ⟨mh, hmh, si, hsi, hhi⟩ : ∃ mh : Mode, (h.mode = .excl → mh = .excl) ∧ HoldsAt tr i t ⟨h.m, mh⟩ := by
+    rcases hal h hh with hA | ⟨_, hA⟩
+    · exact ⟨h.mode, fun e => e, hA⟩
+    · exact ⟨.excl, fun _ => rfl, hA⟩
+  obtain ⟨mk, hmk', sj, hsj, hhj⟩ : ∃ mk : Mode, (k.mode = .excl → mk = .excl) ∧ HoldsAt tr j u ⟨k.m, mk⟩ := by
+    rcases hbl k hk with hA | ⟨_, hA⟩
+    · exact ⟨k.mode, fun e => e, hA⟩
+    · exact ⟨.excl, fun _ => rfl, hA⟩
+  have hx' : mh = .excl ∨ mk = .excl := hx.imp hmh hmk'
   -- split the prefix of length j at i
   obtain ⟨d, rfl⟩ : ∃ d, j = i + d := ⟨j - i, by omega⟩
   have hd : 0 < d := by omega
   rw [List.take_add, runL_append, hsi] at hsj
   simp only [Option.bind] at hsj
   have hI : Inv si := inv_run inv_init hsi
-  have hhi' : holdsIn si t ⟨h.m, h.mode⟩ := hhi
-  have hhj' : holdsIn sj u ⟨h.m, k.mode⟩ := by rw [hm]; exact hhj
-  obtain ⟨p, q, hpq, hp', hq'⟩ := release_then_acquire hI hsj hhi' hhj' htu hx
+  have hhi' : holdsIn si t ⟨h.m, mh⟩ := hhi
+  have hhj' : holdsIn sj u ⟨h.m, mk⟩ := by rw [hm]; exact hhj
+  obtain ⟨p, q, hpq, hp', hq'⟩ := release_then_acquire hI hsj hhi' hhj' htu hx'
   -- positions inside the segment are positions i+p, i+q of the execution
   have seg : ∀ (n : Nat) (e : Ev), (List.take d (List.drop i tr))[n]? = some e → tr[i + n]? = some e ∧ n < d := by
     intro n e hn
@@ -77,7 +85,7 @@ theorem lockset_orders {tbl : List Access} {tr : List Ev} (hrf : raceFree tbl = 
     intro h0; subst h0
     rw [Nat.add_zero, hi] at hP; cases hP
   have e1 : HB tr i (i + p) := HB.po (by omega) hi hP rfl
-  have e2 : HB tr (i + p) (i + q) := HB.sync (by omega) hP hQ hx
+  have e2 : HB tr (i + p) (i + q) := HB.sync (by omega) hP hQ hx'
   have e3 : HB tr (i + q) (i + d) := HB.po (by omega) hQ hj rfl
   exact HB.trans e1 (HB.trans e2 e3)
 
